@@ -7,7 +7,7 @@ from pyvc.api import (Module, Interface, Method, Iface, Inst, Int, Nat, Bool, St
                       ListOf, FixedList, Any_, Custom, IterOf, new_opaque, assume_pred)
 from pyvc.interp import PyRaise
 from pyvc.values import SOpt, SChoice, SBool, SInt, Opaque, to_z3, wrap
-from contracts.common import implies, iff, is_opaque, forall_range, exists_range, items_of
+from contracts.common import implies, iff, is_opaque, forall_range, exists_range, items_of, count_prefix
 from contracts import pathspec
 from contracts.pathspec import P, join, is_abs, den, pstr, PATH, PathI, PurePathI
 
@@ -585,9 +585,11 @@ P_REG = 'exactly_lib.impls.types.files_source.impl.file_makers.regular'
 
 
 class FilesSourceI(Interface):
-    """FilesSource.populate(directory): proved of file_list.Primitive above; fails with HardErrorException only"""
+    """FilesSource.populate(directory): fails with HardErrorException (proved of file_list.Primitive above and of
+    copy_dir_contents._CopyDirContents below) or -- `dir-contents-of` whose source directory cannot be listed -- with
+    an OSError, which the makers translate to HardErrorException (NewFileCreator.make / ExistingFileModifier.make)"""
     attrs = {'describer': Any_}
-    methods = {'populate': Method(event='populate', may_raise=(lambda interp, o: HardErrorException(None),))}
+    methods = {'populate': Method(event='populate', may_raise=(lambda interp, o: HardErrorException(None), OSError))}
 
 
 class ContentsI(Interface):
@@ -631,7 +633,7 @@ M.contract(P_DIR + ':DirFileMaker._create_dir', params=dict(self=DIR_MAKER, path
            raises_only=())
 
 M.contract(P_DIR + ':DirFileMaker._add_to_dir', params=dict(self=DIR_MAKER, path=DESCRIBED_PATH),
-           may_raise=(HardErrorException,),
+           may_raise=(HardErrorException, OSError),
            ensures={'the existing directory is populated, nothing else': lambda self, path, trace:
            ops(trace) == ([] if self._contents is None else [('populate', self._contents)])},
            raises_only=())
@@ -1541,3 +1543,384 @@ M.loop(P_MODELS + ':_FilesGeneratorForRecursive.generate', 1,
        and (at_max(self, current_file.depth)
             or queued_are_the_unpruned_directories(current_file, directory_prune, _xs, _i, remaining_dirs)),
        modifies=dict(remaining_dirs=_WORKLIST, yielded='len', dir_entry='local', current_file_model='local'))
+
+
+# ============================================================================== FILES-CONDITION: repeated file names
+# `{ NAME [: MATCHER] ... }`: a name may be given more than once; the condition on the file of that name is the
+# CONJUNCTION of all the matchers given for it (an entry without matcher adds nothing and removes nothing).
+# Everything is stated for ONE arbitrary fixed name p (ghost): the dict the code builds is seen through its entry for p.
+
+from pyvc.mlist import MList
+from exactly_lib.impls.types.files_condition.impl import literal as fc_literal
+
+P_FC = 'exactly_lib.impls.types.files_condition.impl.literal'
+
+
+class NameDdvI(Interface):
+    """StringDdv of a file name (no directory dependency: restricted to strings, C08)"""
+    methods = {'value_when_no_dir_dependencies': Method(returns=Str, pure=True)}
+
+
+class MatcherDdvI(Interface):
+    """FileMatcherDdv; D(f): the FileMatcher it resolves to accepts the file f"""
+    attrs = {'validator': Any_}
+    methods = {'D': Method(returns=Bool, pure=True), 'structure': Method(returns=Any_)}
+
+
+_FC_ENTRIES = ListOf(FixedList(Iface(NameDdvI), Opt(Iface(MatcherDdvI)), as_tuple=True))
+_FC_MATCHER_REF = RefTo(MatcherDdvI, 'self._files.1[]')
+_FC_MATCHERS = MListOf(_FC_MATCHER_REF)
+DDV_HELPER = Inst(fc_literal._DdvHelper, _files=_FC_ENTRIES)
+
+
+def _empty_matchers(interp, name):
+    m = _FC_MATCHERS.make(interp, name)
+    m.length = z3.IntVal(0)
+    return m
+
+
+def _as_matchers(interp, value, name):
+    if isinstance(value, MList):
+        return value
+    if isinstance(value, list) and not value:
+        return _empty_matchers(interp, name)
+    from pyvc.path import Unsupported
+    raise Unsupported('group map: value %r' % (value,))
+
+
+def _gm_is_p(interp, self, path):
+    return interp.branch(interp.eq(pathspec.pid_of(interp, path), self._pv_attrs['p']))
+
+
+def _gm_setdefault(interp, self, args, kwargs):
+    path, default = args
+    a = self._pv_attrs
+    if not _gm_is_p(interp, self, path):
+        return default                      # the list of another name: not tracked, never the list of p
+    if not interp.branch(a['has_p']):
+        a['has_p'] = True
+        a['list_p'] = _as_matchers(interp, default, 'group')
+    return a['list_p']
+
+
+def _gm_setitem(interp, self, args, kwargs):
+    path, value = args
+    a = self._pv_attrs
+    if _gm_is_p(interp, self, path):
+        a['has_p'] = True
+        a['list_p'] = _as_matchers(interp, value, 'group')
+    return None
+
+
+class _NameKey:
+    """the key p of the projected map, as a plain hashable object (a dict of the code may hold it)"""
+
+    def __init__(self, pid):
+        self.pid = pid
+
+
+def _key_pid(interp, k):
+    return k.pid if isinstance(k, _NameKey) else pathspec.pid_of(interp, k)
+
+
+def _gm_items(interp, self, args, kwargs):
+    """the items of the map, seen through p: the entry for p, if there is one"""
+    a = self._pv_attrs
+    if interp.branch(a['has_p']):
+        return [(_NameKey(a['p']), a['list_p'])]
+    return []
+
+
+class GroupMapI(Interface):
+    """the dict  name -> list of matchers  of _group_identical_file_names, projected to the name p"""
+    attrs = {'p': Int, 'has_p': Bool, 'list_p': Any_}
+    methods = {'setdefault': Method(model=_gm_setdefault), '__setitem__': Method(model=_gm_setitem),
+               'items': Method(model=_gm_items)}
+
+
+def _mk_group_map(interp, name):
+    o = new_opaque(interp, GroupMapI, name)
+    o._pv_attrs['p'] = interp.reg.ghost_env['p']
+    o._pv_attrs['has_p'] = Bool.make(interp, name + '.has_p')
+    o._pv_attrs['list_p'] = _FC_MATCHERS.make(interp, name + '.list_p')
+    return o
+
+
+def _has_group(interp, args, kwargs):
+    m, p = args
+    if isinstance(m, dict):
+        return any(interp.truth(interp.eq(_key_pid(interp, k), p)) is True for k in m)
+    return m._pv_attrs['has_p']
+
+
+def _group(interp, args, kwargs):
+    m, p = args
+    if isinstance(m, dict):
+        for k, v in m.items():
+            if interp.truth(interp.eq(_key_pid(interp, k), p)) is True:
+                return v
+        return []
+    return m._pv_attrs['list_p']
+
+
+def has_group(m, p):
+    """the name p is a key of the grouping (proof level)"""
+    raise NotImplementedError
+
+
+def group(m, p):
+    """the list of matchers the grouping holds for the name p (proof level)"""
+    raise NotImplementedError
+
+
+M.model(has_group, _has_group)
+M.model(group, _group)
+
+
+def name_at(files, j):
+    """the pure path of the j-th entry"""
+    return P0(files[j][0].value_when_no_dir_dependencies())
+
+
+def gives_matcher_for(files, j, p):
+    return name_at(files, j) == p and files[j][1] is not None
+
+
+def key_iff_named(files, n, m, p):
+    """p is a key iff one of the first n entries has the name p (and without key there is no matcher)"""
+    return iff(has_group(m, p), exists_range(0, n, lambda j: name_at(files, j) == p)) \
+        and (has_group(m, p) or len(group(m, p)) == 0)
+
+
+def only_their_matchers(files, n, m, p):
+    """every matcher grouped under p is the matcher of one of the first n entries, which is named p"""
+    g = group(m, p)
+    return forall_range(0, len(g), lambda k: 0 <= index_of(g[k]) and index_of(g[k]) < n
+                                              and gives_matcher_for(files, index_of(g[k]), p))
+
+
+def in_entry_order(m, p):
+    g = group(m, p)
+    return forall_range(0, len(g) - 1, lambda k: index_of(g[k]) < index_of(g[k + 1]))
+
+
+def all_their_matchers(files, n, m, p):
+    """the matcher of every one of the first n entries that is named p is grouped under p"""
+    g = group(m, p)
+    return forall_range(0, n, lambda j: implies(gives_matcher_for(files, j, p),
+                                                exists_range(0, len(g), lambda k: index_of(g[k]) == j)))
+
+
+def entry_gives_matcher(entry, p):
+    return P0(entry[0].value_when_no_dir_dependencies()) == p and entry[1] is not None
+
+
+def as_many_as_given(files, n, m, p):
+    """as many matchers are grouped under p as the first n entries give for p (none is lost, none is added)"""
+    return len(group(m, p)) == count_prefix(files, n, entry_gives_matcher, p)
+
+
+def grouped(files, n, m, p):
+    """after the first n entries: p is a key iff one of them has the name p; the matchers grouped under p are
+    exactly the matchers of the entries named p, in the order of the entries"""
+    return key_iff_named(files, n, m, p) and as_many_as_given(files, n, m, p) \
+        and only_their_matchers(files, n, m, p) and in_entry_order(m, p) and all_their_matchers(files, n, m, p)
+
+
+M.contract(P_FC + ':_DdvHelper._group_identical_file_names', params=dict(self=DDV_HELPER), ghosts=dict(p=Int),
+           inline=True,
+           ensures={'for every name: exactly the matchers of the entries with that name, in order':
+                        lambda self, result, p: grouped(self._files, len(self._files), result, p)},
+           raises_only=())
+M.loop(P_FC + ':_DdvHelper._group_identical_file_names', 0,
+       invariant=lambda _i, self, ret_val, p:
+       key_iff_named(self._files, _i, ret_val, p) and as_many_as_given(self._files, _i, ret_val, p)
+       and only_their_matchers(self._files, _i, ret_val, p)
+       and in_entry_order(ret_val, p) and all_their_matchers(self._files, _i, ret_val, p),
+       # (the list a setdefault call returns is part of the map: mutated in place, also when not bound to a name)
+       modifies={'ret_val': Custom(_mk_group_map), 'file_name': 'local', 'mb_matcher_ddv': 'local', 'path': 'local',
+                 'matchers': 'local', '@ret_val.setdefault(path, [])': Any_})
+
+
+def accepts_ddv(m, f):
+    """denotation of a FileMatcherDdv: the matcher it resolves to accepts f.  ConjunctionDdv resolves to the
+    Conjunction of what its operands resolve to (C06: ConjunctionDdv.value_of_any_dependency,
+    _SequenceOfOperandsAdv.primitive), which accepts iff every operand does (C05)."""
+    if is_opaque(m):
+        return m.D(f)
+    if isinstance(m, combinator_matchers.ConjunctionDdv):
+        return forall_range(0, len(m._operands), lambda k: m._operands[k].D(f))
+    raise ValueError('accepts_ddv: unexpected matcher ddv')
+
+
+M.contract(P_FC + ':_DdvHelper._all_matcher', params=dict(matchers=_FC_MATCHERS), ghosts=dict(f=Int), inline=True,
+           ensures={
+               'no matcher iff the list is empty': lambda matchers, result: iff(result is None, len(matchers) == 0),
+               'otherwise: the CONJUNCTION of all the matchers of the list': lambda matchers, result, f:
+               result is None or iff(accepts_ddv(result, f),
+                                     forall_range(0, len(matchers), lambda k: matchers[k].D(f))),
+               'in order (a conjunction holds the list itself)': lambda matchers, result:
+               len(matchers) < 2 or ((not is_opaque(result))
+                                     and isinstance(result, combinator_matchers.ConjunctionDdv)
+                                     and result._operands is matchers),
+           }, raises_only=())
+
+
+def _value_for(interp, args, kwargs):
+    d, p = args
+    for k, v in d.items():
+        if interp.truth(interp.eq(_key_pid(interp, k), p)) is True:
+            return v
+    return None
+
+
+def value_for(d, p):
+    """the value the (real) dict d has for the name p, None if p is not a key (proof level)"""
+    raise NotImplementedError
+
+
+M.model(value_for, _value_for)
+
+
+def some_entry_named(files, p):
+    return exists_range(0, len(files), lambda j: name_at(files, j) == p)
+
+
+def some_matcher_given(files, p):
+    return exists_range(0, len(files), lambda j: gives_matcher_for(files, j, p))
+
+
+def every_given_matcher_accepts(files, p, f):
+    return forall_range(0, len(files), lambda j: (not gives_matcher_for(files, j, p)) or files[j][1].D(f))
+
+
+M.contract(P_FC + ':_DdvHelper.files_as_map', params=dict(self=DDV_HELPER), ghosts=dict(p=Int, f=Int),
+           ensures={
+               'a name is a key iff an entry has that name': lambda self, result, p:
+               iff(has_group(result, p), some_entry_named(self._files, p)),
+               'no matcher iff no entry of that name gives one': lambda self, result, p:
+               iff(value_for(result, p) is None, not some_matcher_given(self._files, p)),
+               'the matcher of a name accepts a file iff EVERY matcher given for that name accepts it':
+                   lambda self, result, p, f:
+                   value_for(result, p) is None
+                   or iff(accepts_ddv(value_for(result, p), f), every_given_matcher_accepts(self._files, p, f)),
+           }, raises_only=())
+
+
+# ============================================================================== dir-contents-of: copying into a directory
+# Ghost file system (contracts/pathspec.py): `entry_exists(p)` -- a directory entry of ANY kind at p, also a symbolic
+# link that points nowhere (what lstat sees); `target_exists(p)` -- symbolic links followed (what exists() sees).
+# What is written is a ghost log `copied` of (destination, source, whole tree?).
+
+from exactly_lib.impls.types.files_source.impl import copy_dir_contents
+from contracts.pathspec import entry_exists, name0
+
+P_CDC = 'exactly_lib.impls.types.files_source.impl.copy_dir_contents'
+
+
+def _os_copy(tree):
+    def m(interp, self, args, kwargs):
+        """OsServices.copy_file / copy_tree__preserve_as_much_as_possible: writes at dst (logged; the file system
+        changes) or fails with HardErrorException (impls/os_services/impl.py translates every OSError)"""
+        src, dst = args
+        _log_append(interp, 'copied', dst=pathspec.pid_of(interp, dst), src=pathspec.pid_of(interp, src),
+                    tree=tree)
+        pathspec.fs_changed(interp)
+        if interp.st.choose(2) == 1:
+            raise PyRaise(HardErrorException(Any_.make(interp, 'error')))
+        return None
+
+    return m
+
+
+class OsServicesI(Interface):
+    methods = {'copy_file': Method(model=_os_copy(False)),
+               'copy_tree__preserve_as_much_as_possible': Method(model=_os_copy(True))}
+
+
+class AppEnvI(Interface):
+    attrs = {'os_services': Iface(OsServicesI)}
+
+
+def copied_count(ghost=None):
+    """number of copy operations so far (proof level)"""
+    raise NotImplementedError
+
+
+def copied_dst(k):
+    raise NotImplementedError
+
+
+def copied_src(k):
+    raise NotImplementedError
+
+
+M.model(copied_count, lambda interp, args, kwargs: _log(interp, 'copied')['n'])
+M.model(copied_dst, lambda interp, args, kwargs: wrap(_log_fn('copied', 'dst', z3.IntSort())(to_z3(args[0]))))
+M.model(copied_src, lambda interp, args, kwargs: wrap(_log_fn('copied', 'src', z3.IntSort())(to_z3(args[0]))))
+
+M.contract(P_CDC + ':_FileNameClashRendering.renderer', trusted=True, returns=Any_, params=dict(self=Any_))
+
+COPY_DIR_CONTENTS = Inst(copy_dir_contents._CopyDirContents, _src_dir=DESCRIBED_PATH, _environment=Iface(AppEnvI))
+M.assume('lstat() of a name in the directory that is being populated raises FileNotFoundError iff there is no '
+         'directory entry of that name, of any kind (the directory itself exists and is accessible: the maker has '
+         'just created it or checked it)')
+
+
+def _dst_of(dst_dir_path, name):
+    return join(den(dst_dir_path.primitive), P(name))
+
+
+M.contract(P_CDC + ':_CopyDirContents._copy_path',
+           params=dict(self=COPY_DIR_CONTENTS, src_file_name=Str, dst_dir_path=DESCRIBED_PATH), inline=True,
+           old=lambda src_file_name, dst_dir_path, ghost:
+           (entry_exists(_dst_of(dst_dir_path, src_file_name)), copied_count(ghost)),
+           raises={
+               HardErrorException: {'ensures': lambda old, ghost:
+               # a clash: HARD_ERROR and NOTHING is written; otherwise the one copy operation failed
+               copied_count(ghost) == (old[1] if old[0] else old[1] + 1)},
+               OSError: {'ensures': lambda old, ghost: (not old[0]) and copied_count(ghost) == old[1]},
+           },
+           ensures={
+               'copies only when there is NO directory entry of any kind at the destination name (lstat: a dangling '
+               'symbolic link is a clash too)': lambda old: not old[0],
+               'one copy: directory/NAME from source/NAME': lambda self, src_file_name, dst_dir_path, old, ghost:
+               copied_count(ghost) == old[1] + 1
+               and copied_dst(old[1]) == _dst_of(dst_dir_path, src_file_name)
+               and copied_src(old[1]) == join(den(self._src_dir.primitive), P(src_file_name)),
+           }, raises_only=())
+
+M.contract(P_CDC + ':_CopyDirContents._copy_file',
+           params=dict(self=COPY_DIR_CONTENTS, src_file=PATH, dst_file=PATH), inline=True,
+           old=lambda ghost: copied_count(ghost),
+           may_raise=(HardErrorException, OSError),
+           ensures={'one copy operation, onto dst_file': lambda src_file, dst_file, old, ghost:
+           copied_count(ghost) == old + 1 and copied_dst(old) == den(dst_file) and copied_src(old) == den(src_file)},
+           raises_only=())
+
+
+def source_entries(self):
+    """the entries of the source directory (iterdir gives the same answer when asked again)"""
+    return self._src_dir.primitive.iterdir()
+
+
+def copied_in_order(entries, d, old, n):
+    """the first n entries of the source directory were copied, each to d/NAME -- nothing is written elsewhere"""
+    return forall_range(0, n, lambda k: copied_dst(old + k) == join0(d, P0(name0(den(entries[k])))))
+
+
+M.contract(P_CDC + ':_CopyDirContents.populate', params=dict(self=COPY_DIR_CONTENTS, directory=DESCRIBED_PATH),
+           old=lambda ghost: copied_count(ghost),
+           # a clash or a failing copy: HardErrorException; the source directory cannot be listed: OSError, which the
+           # makers translate (NewFileCreator.make / ExistingFileModifier.make, proved above)
+           may_raise=(HardErrorException, OSError),
+           ensures={'every entry of the source directory is copied to directory/NAME; nothing else is written':
+                        lambda self, directory, old, ghost:
+                        copied_count(ghost) == old + len(source_entries(self))
+                        and copied_in_order(source_entries(self), den(directory.primitive), old,
+                                            len(source_entries(self)))},
+           raises_only=())
+M.loop(P_CDC + ':_CopyDirContents.populate', 0,
+       invariant=lambda _i, _xs, directory, old:
+       copied_count() == old + _i and copied_in_order(_xs, den(directory.primitive), old, _i),
+       modifies={'src_path': 'local', 'ghost:copied': Custom(_mk_log), 'ghost:fs_epoch': Nat})
